@@ -5,8 +5,8 @@ import random
 from . import tlaval
 
 
-def step(i, ret='none'):
-    return {'t': 'step', 'id': i, 'ret': ret}
+def step(i, ret='none', aw='none'):
+    return {'t': 'step', 'id': i, 'ret': ret, 'aw': aw}
 
 
 def ret_(code='none'):
@@ -90,7 +90,7 @@ def _steps(body):
                 yield from _steps(c['body'])
 
 
-def family(max_size, depth, rets=('v0', 'v5', 'ctx', 'False')):
+def family(max_size, depth, rets=('v0', 'v5', 'ctx', 'False'), awaitables=True):
     """every outline with <= max_size nodes nested <= depth; for each structure: all steps returning None, and each
     single step in turn returning each special value."""
     out = []
@@ -105,10 +105,13 @@ def family(max_size, depth, rets=('v0', 'v5', 'ctx', 'False')):
             variants = [body]
             nsteps = len(list(_steps(body)))
             for i in range(nsteps):
-                for r in rets:
-                    import copy
+                import copy
+                # ... and each single step registering something to wait for: by calling to_context (whatever it then
+                # returns) or in the ToContext it returns
+                for r, aw in [(r, 'none') for r in rets] + ([(r, 'call') for r in ('none',) + tuple(rets)] + [('ctx', 'ret')] if awaitables else []):
                     b = copy.deepcopy(body)
                     list(_steps(b))[i]['ret'] = r
+                    list(_steps(b))[i]['aw'] = aw
                     variants.append(b)
             for b in variants:
                 out.append({'single': False, 'body': b})
@@ -129,13 +132,14 @@ def sample(lst, n, seed):
     return [lst[i] for i in idx]
 
 
-def mc_module(name, outlines, oracle_list, crash_sets=((),), cfg_extra=''):
+def mc_module(name, outlines, oracle_list, crash_sets=((),), cfg_extra='', lag=0):
     tla = '---- MODULE %s ----\nEXTENDS Outline, Json\n' % name
+    tla += 'MCLag == %d\n' % lag
     tla += 'MCOutlines == %s\n' % tlaval.emit(outlines)
     tla += 'MCOracles == %s\n' % tlaval.emit(oracle_list)
     tla += 'MCCrashSets == <<%s>>\n' % ', '.join('{' + ', '.join(str(i) for i in sorted(c)) + '}' for c in crash_sets)
-    tla += 'Report == W.done => PrintT(ToJson(<<"R", W.oi, W.ri, W.ci, W.units, W.result, W.restores>>))\n'
+    tla += 'Report == W.done => PrintT(ToJson(<<"R", W.oi, W.ri, W.ci, W.units, W.result, W.restores, W.waits>>))\n'
     tla += '====\n'
-    cfg = 'SPECIFICATION Spec\nCHECK_DEADLOCK FALSE\nCONSTANTS\n Outlines <- MCOutlines\n Oracles <- MCOracles\n CrashSets <- MCCrashSets\n'
+    cfg = 'SPECIFICATION Spec\nCHECK_DEADLOCK FALSE\nCONSTANTS\n Outlines <- MCOutlines\n Oracles <- MCOracles\n CrashSets <- MCCrashSets\n Lag <- MCLag\n'
     cfg += cfg_extra
     return tla, cfg
